@@ -73,11 +73,47 @@ def score_residual(scn, gam, X, y, w):
     P = gam._P().toarray() + SQRT_EPS * np.eye(m)
     if gam.terms.hasconstraint:
         P = P + gam._C().toarray()
+    with np.errstate(all='ignore'):
+        # the same score over ALL rows (the property's criterion), rows dropped by the code's mask included
+        s_all = np.where(np.isfinite(a * w * (y - mu) / (V * gp)), a * w * (y - mu) / (V * gp), 0.0)
     lhs = B.T @ s
     rhs = P @ beta
     M = (B * np.where(keep, W2, 0.0)[:, None]).T @ B + P
     scale = np.abs(M) @ np.abs(beta) + np.abs(B).T @ np.abs(s) + 1e-300
+    score_residual.full = float(np.max(np.abs(B.T @ s_all - rhs) / (scale.max() + np.max(np.abs(B).T @ np.abs(s_all)))))
+    score_residual.masked = int((~keep).sum())
     return float(np.max(np.abs(lhs - rhs) / scale.max())), keep
+
+
+F_MASK = 'C01-masked-rows-not-stationary'
+
+
+def mask_witness(res):
+    """deterministic witness of F_MASK (exact data shared with C12's frozen-fit witness): LogisticGAM, one unpenalised spline, rows replicated;
+    fit stops with diff < tol while 23 of 77 rows are masked, among them y = 1 rows predicted at 1e-23"""
+    import contextlib
+    import io
+    import json
+    import os
+    from pygam import LogisticGAM, s
+    d = json.load(open(os.path.join(os.path.dirname(os.path.abspath(__file__)), 'c12_mask_witness.json')))
+    X, y, w, k = np.array(d['x'])[:, None], np.array(d['y']), np.array(d['w']), np.array(d['k'])
+    idx = np.repeat(np.arange(len(y)), k)
+    gam = LogisticGAM(s(0, n_splines=9, spline_order=2, lam=0.07484608123890127, penalties='none'), fit_intercept=False, tol=1e-10, max_iter=400)
+    with warnings.catch_warnings(), contextlib.redirect_stdout(io.StringIO()), np.errstate(all='ignore'):
+        warnings.simplefilter('ignore')
+        gam.fit(X[idx], y[idx], weights=w[idx])
+    scn = dict(cls='LogisticGAM')
+    r, keep = score_residual(scn, gam, X[idx], y[idx], w[idx].astype(float))
+    conv = gam.logs_['diffs'][-1] < 1e-10
+    res.case(('mask-witness',))
+    if conv and score_residual.masked and score_residual.full > 1e-6:
+        res.violations.append(dict(what='converged fit is a stationary point only of the criterion restricted to the rows PIRLS kept: rows dropped by _mask '
+                                        '(|W| < sqrt(eps) or non-finite) still carry score', finding=F_MASK,
+                                   input=dict(model="LogisticGAM(s(0, n_splines=9, spline_order=2, lam=0.0748, penalties='none'), fit_intercept=False, tol=1e-10, max_iter=400)",
+                                              data='harness/props/c12_mask_witness.json, rows replicated k times'),
+                                   observed=dict(relative_residual_all_rows=score_residual.full, relative_residual_kept_rows=r, masked_rows=score_residual.masked,
+                                                 reported_diff=float(gam.logs_['diffs'][-1])), expected='a stationary point of the full criterion'))
 
 
 def closed_form_fitted(scn, gam, X, y, w):
@@ -160,6 +196,13 @@ def run(res):
             if not (r <= bound):
                 res.violations.append(dict(what='converged fit is not a stationary point: score-equation residual too large', finding=None,
                                            input=d, observed=dict(relative_residual=r), expected='<= %g' % bound))
+            elif score_residual.masked and not (score_residual.full <= bound):
+                res.count('converged fits that are stationary only for the rows PIRLS kept (masked rows carry score)')
+                res.violations.append(dict(what='converged fit is a stationary point only of the criterion restricted to the rows PIRLS kept: rows dropped by _mask '
+                                                '(|W| < sqrt(eps) or non-finite) still carry score', finding=F_MASK,
+                                           input=dict(d, X=X.tolist(), y=y.tolist(), weights=None if scn['w'] is None else scn['w'].tolist()),
+                                           observed=dict(relative_residual_all_rows=score_residual.full, relative_residual_kept_rows=r, masked_rows=score_residual.masked),
+                                           expected='<= %g over all rows' % bound))
         if cls == 'LinearGAM' and not gam.terms.hasconstraint and its[-1]['l2'] == 1e-3:
             ref = closed_form_fitted(scn, gam, X, y, w)
             got = gam.predict_mu(X)
@@ -169,6 +212,10 @@ def run(res):
                 res.violations.append(dict(what='LinearGAM fitted values differ from the closed-form penalised weighted least-squares solution',
                                            finding=None, input=dict(d, X=X.tolist(), y=y.tolist(), weights=None if scn['w'] is None else scn['w'].tolist()),
                                            observed=dict(max_relative_difference=err), expected='<= 1e-6'))
+    try:
+        mask_witness(res)
+    except Exception as e:
+        res.notes.append('mask witness could not be evaluated: %s: %s' % (type(e).__name__, e))
     with common.CaseDir(PROP) as cd:
         failing, errors = common.run_bool_cases(cd, HEADER, cases, 'check_case', shard=6)
         codes = {}
